@@ -595,7 +595,7 @@ func (w *wk) runClient(cs Case) result {
 	case <-time.After(connWait):
 	}
 	if closed {
-		w.env.Svc.VerifPresence().VerifBarrier()
+		w.env.PresenceBarrier()
 	}
 	d := w.alloc() - a0
 	if d > w.can.cost {
